@@ -88,6 +88,9 @@ func readResp(r xmlstream.TokenReadCloser, prog int, c *reqCall) {
 	}
 	el := Elem{Start: st}
 	c.gotName, c.gotID, c.gotType = st.Name.Local, el.Attr("id"), el.Attr("type")
+	if m := el.Attr("m"); m != "" {
+		c.gotMarker = m // a result without payload carries its marker itself
+	}
 	if prog == 0 {
 		return
 	}
@@ -231,6 +234,7 @@ type peerReply struct {
 	sent    bool
 	sentAt  int // scheduler step when written
 	unknown bool
+	empty   bool // a result without payload (what a server sends when there is nothing to say): the marker rides on the stanza itself
 }
 
 // c06IDTail: ids are opaque strings chosen by the application: characters that need escaping in an attribute, spaces,
@@ -245,6 +249,9 @@ func c06IDTail(ch *simrt.Chooser) string {
 func replyXML(p *peerReply) string {
 	if p.typ == "error" {
 		return fmt.Sprintf(`<%s type="error" id="%s" from="example.net"><error type="cancel"><item-not-found xmlns="urn:ietf:params:xml:ns:xmpp-stanzas"/><text xmlns="urn:ietf:params:xml:ns:xmpp-stanzas">%s</text></error></%s>`, p.name, escText(p.id), p.marker, p.name)
+	}
+	if p.empty {
+		return fmt.Sprintf(`<%s type="result" id="%s" from="example.net" m="%s"/>`, p.name, escText(p.id), p.marker)
 	}
 	return fmt.Sprintf(`<%s type="result" id="%s" from="example.net"><r xmlns="urn:verif" m="%s"><c/><c/></r></%s>`, p.name, escText(p.id), p.marker, p.name)
 }
@@ -332,7 +339,7 @@ func runC06(rc *RC) {
 	sentinelSeen := false
 	handler := xmpp.HandlerFunc(func(t xmlstream.TokenReadEncoder, start *xml.StartElement) error {
 		el := Elem{Start: *start}
-		s := seen{name: start.Name.Local, id: el.Attr("id"), typ: el.Attr("type"), at: rc.S.Now(), step: rc.S.Steps}
+		s := seen{name: start.Name.Local, id: el.Attr("id"), typ: el.Attr("type"), marker: el.Attr("m"), at: rc.S.Now(), step: rc.S.Steps}
 		for {
 			tok, err := t.Token()
 			if err != nil {
@@ -409,6 +416,10 @@ func runC06(rc *RC) {
 	newReply := func(id, name, typ string) *peerReply {
 		mk++
 		p := &peerReply{marker: fmt.Sprintf("R%dx", mk), id: id, name: name, typ: typ}
+		if typ == "result" && ch.Chance("peer", 1, 6) {
+			p.empty = true
+			rc.Fire("empty-result")
+		}
 		replies = append(replies, p)
 		return p
 	}
